@@ -221,7 +221,7 @@ class Gen:
         if self.clean:
             secs = self._declutter([n for n in (self.node(0) for _ in range(r.randint(1, self.max_sibs + 2))) if n[0] != "c"])
             trailing = self.comments() if (r.random() < 0.5 and secs and secs[-1][0] == "a" and secs[-1][2][0] != "list") else []
-            grammar = None if front is not None else r.choice([None, None, None, "5.1.0", "6", "5.1.0-beta.1"])
+            grammar = r.choice([None, None, None, "5.1.0", "6", "5.1.0-beta.1"])
             return {"name": r.choice(["DOC", "MyDoc", "_x", "A1"]), "grammar": grammar, "front": front,
                     "sep": r.random() < 0.3, "meta": self.meta(), "sections": secs, "trailing": trailing}
         return {
